@@ -409,13 +409,18 @@ pub fn run_replays<P: Property>(p: &P, tier: Tier) -> ShardResult {
             Ok(out) => {
                 res.counters.entry("replayed_files".into()).and_modify(|c| *c += 1).or_insert(1);
                 res.absorb(&out, 2);
-                let (un, li) = triage(&known, p.id(), &out.failures);
+                // Committed regression inputs (everything except the `new-*` files written at run time) hold on
+                // the unchanged tree by construction, so for them ANY failure is a violation — also one whose
+                // class is a recorded finding (a listed finding is identified by class *and* by the inputs on
+                // which it shows; a committed input is one on which it does not).
+                let strict = !f.file_name().map(|n| n.to_string_lossy().starts_with("new-")).unwrap_or(false);
+                let (un, li) = if strict { (out.failures.iter().collect::<Vec<_>>(), vec![]) } else { triage(&known, p.id(), &out.failures) };
                 for x in li {
                     let e = res.known.entry(x.sig.clone()).or_insert((0, x.msg.clone()));
                     e.0 += 1;
                 }
                 for x in un {
-                    res.violations.push(Violation { sig: x.sig.clone(), msg: x.msg.clone(), replay: f.to_string_lossy().to_string() });
+                    res.violations.push(Violation { sig: format!("regression-input:{}", x.sig), msg: x.msg.clone(), replay: f.to_string_lossy().to_string() });
                 }
             }
             Err(e) => {
